@@ -4,7 +4,7 @@
 Require Extraction.
 Require Import ExtrOcamlBasic.
 From Coq Require Import String List.
-From ClasticV Require Import Base.Sx Model.Stats Model.ChainIO Model.DispatchIO.
+From ClasticV Require Import Base.Sx Model.Stats Model.ChainIO Model.DispatchIO Model.MatchIO.
 Local Open Scope string_scope.
 
 Definition dispatch (tag : string) (s : sexp) : sexp :=
@@ -14,6 +14,7 @@ Definition dispatch (tag : string) (s : sexp) : sexp :=
   else if String.eqb tag "dispatchlab" then run_dispatchlab s
   else if String.eqb tag "methodslab" then run_methodslab s
   else if String.eqb tag "normpath" then run_normpath s
+  else if String.eqb tag "matchlab" then run_matchlab s
   else A "UNKNOWN-TAG".
 
 Extraction Blacklist String List Nat Bool.
